@@ -3,9 +3,9 @@
 import json, os, re, glob
 res={}
 for l in open('/verif/seeded/RESULTS.md'):
-    m=re.match(r'\| (C\d\d-m\d) \| (C\d\d) \| (\d*) \| (.*) \|',l)
+    m=re.match(r'\| (C\d\d-[mr]\w+) \| (C\d\d) \| (\d*) \| (.*) \|',l)
     if m: res.setdefault(m.group(1),[]).append((m.group(2),m.group(3),m.group(4).strip()))
-for d in sorted(glob.glob('/verif/seeded/C*-m*/')):
+for d in sorted(glob.glob('/verif/seeded/C*-[mr]*/')):
     sid=os.path.basename(d.rstrip('/'))
     mp=d+'meta.json'; meta=json.load(open(mp))
     notes=open(d+'notes.md').read() if os.path.exists(d+'notes.md') else ''
